@@ -15,6 +15,7 @@ import (
 	"sort"
 	"strings"
 	"sync"
+	"time"
 
 	"github.com/vektah/gqlparser/v2"
 	"github.com/vektah/gqlparser/v2/ast"
@@ -414,6 +415,10 @@ type Net struct {
 	Calls []CallLog
 	Fault Fault
 	Gate  func(svc string, call int) // blocks a call until the driver lets it complete
+	// OpRule decides by the operationName a sub-request carries: "" (answer honestly), "fail"
+	// (answer with GraphQL errors) or "slow" (answer late).  Identity based, hence the same for an
+	// operation sent alone or inside a batch (C08).
+	OpRule func(opName string) string
 }
 
 type CallLog struct {
@@ -534,7 +539,22 @@ func (n *Net) RoundTrip(req *http.Request) (*http.Response, error) {
 	n.mu.Lock()
 	n.Log = append(n.Log, logs...)
 	fault := n.Fault
+	rule := n.OpRule
 	n.mu.Unlock()
+	if rule != nil {
+		for i, r := range reqs {
+			name := ""
+			if r.OperationName != nil {
+				name = *r.OperationName
+			}
+			switch rule(name) {
+			case "fail":
+				honest[i] = map[string]interface{}{"data": nil, "errors": []interface{}{map[string]interface{}{"message": "service failure for " + name, "extensions": map[string]interface{}{"code": "DOWNSTREAM"}}}}
+			case "slow":
+				time.Sleep(3 * time.Millisecond)
+			}
+		}
+	}
 	if gate != nil {
 		gate(url, call)
 	}
